@@ -8,7 +8,7 @@
                every array and array-like, and for callbacks that mutate the receiver).
   Deviation regions are stated as hypotheses; each has a kernel-checked witness at the end.
 -/
-import OttoVerif.C08.Spec
+import OttoVerif.C08.Lemmas
 namespace OttoVerif.C08.Thm
 open OttoVerif.C08 OttoVerif.F64
 
@@ -361,28 +361,6 @@ theorem concat_refines (O : Ops σ) (items : List CArg) (s : σ)
   simp only [concat, Spec.concat, h1, h3]
 
 
-theorem lookup_erase_self (k : Key) (l : List (Key × PropD)) : lookup k (erase k l) = none := by
-  induction l with
-  | nil => rfl
-  | cons q r ih =>
-    obtain ⟨k', p'⟩ := q
-    by_cases h : k' = k
-    · simp [erase, h, ih]
-    · simp [erase, h, lookup, ih]
-
-theorem lookup_erase_ne (k k' : Key) (l : List (Key × PropD)) (h : k' ≠ k) : lookup k' (erase k l) = lookup k' l := by
-  induction l with
-  | nil => rfl
-  | cons q r ih =>
-    obtain ⟨k'', p''⟩ := q
-    by_cases h1 : k'' = k
-    · subst h1
-      have : ¬ k'' = k' := fun e => h e.symm
-      simp [erase, lookup, this, ih]
-    · by_cases h2 : k'' = k'
-      · subst h2; simp [erase, h1, lookup]
-      · simp [erase, h1, lookup, h2, ih]
-
 /-- what objectDelete does to the store: on success the key is absent and every other key is untouched;
     on failure nothing changes -/
 theorem objectDelete_effect (k : Key) (o : Obj) :
@@ -593,6 +571,7 @@ theorem map_refines (O : Ops σ) (c : Bool) (s : σ)
       | some x => rfl
 
 
+
 /-! ## Witnesses: each deviation region is inhabited (kernel-checked by `decide`) -/
 
 /-- a small array-like used by the witnesses and non-vacuity examples -/
@@ -618,9 +597,6 @@ def E0 : Env := { pn := fun _ => .nan, ts := fun _ => [] }
 def retOf {σ : Type} : Res σ Ret → Option Ret
   | .ok r _ => some r
   | .err _ _ => none
-def stateOf {σ α : Type} : Res σ α → σ
-  | .ok _ s => s
-  | .err _ s => s
 def isErr {σ α : Type} : Res σ α → Bool
   | .ok _ _ => false
   | .err _ _ => true
@@ -662,6 +638,58 @@ example :
     isErr (arrayDefineOwnProperty E0 .length { v := some (.int 1) } true o) = true
       ∧ isErr (Spec.arrayDefineOwn E0 .length { v := some (.int 1) } true o) = false := by decide
 
+
+/-! ## The length invariant: consequences, transfer to §15.4.5.1, non-vacuity -/
+
+/-- in observable terms: after any history, every own array-index property lies below `length` -/
+theorem length_gt_every_index (E : Env) (ops : List HOp) (o : Obj) (h : WFArr o) (n : Nat) (hn : n < 2^32 - 1)
+    (hp : (lookup (.idx n) (runHist E ops o).props).isSome = true) : n < arrLength (runHist E ops o) := by
+  obtain ⟨_, m, w, hl, _, hb⟩ := length_invariant E ops o h
+  rw [arrLength_of _ m w hl]
+  exact hb n hn hp
+
+/-- §15.4.5.1 step 3.l, completed: the specification's truncation loop leaves no element in [newLen, oldLen) -/
+theorem truncateLoop_deletes (E : Env) (newLen : Nat) (d : Desc) (nw throw : Bool) (cnt : Nat) (o o' : Obj)
+    (h : Spec.truncateLoop E newLen d nw throw cnt o = .ok none o') :
+    (∀ n, newLen ≤ n → n < newLen + cnt → lookup (.idx n) o'.props = none) ∧
+    (∀ k, (∀ n, newLen ≤ n → n < newLen + cnt → k ≠ .idx n) → lookup k o'.props = lookup k o.props) := by
+  rw [← shrinkLoop_refines] at h
+  exact shrinkLoop_deletes E newLen d nw throw cnt o o' h
+
+/-- §15.4.5.1 step 3.l.iii: the specification's loop, too, stops at the first non-configurable element with
+    length = its index + 1 (transferred from the model through `shrinkLoop_refines`) -/
+theorem truncateLoop_stops (E : Env) (N : Nat) (d : Desc) (nw t : Bool) (hc : Cok d) (cnt : Nat) (o1 o2 : Obj)
+    (hl : LenProp o1 N true)
+    (h : (∃ b, Spec.truncateLoop E N d nw t cnt o1 = .ok (some b) o2) ∨ (∃ e, Spec.truncateLoop E N d nw t cnt o1 = .err e o2)) :
+    ∃ l p, N ≤ l ∧ l < N + cnt ∧ lookup (.idx l) o1.props = some p ∧ p.c = false ∧
+      (∀ i, l < i → i < N + cnt →
+        lookup (.idx i) o2.props = none ∧ ∀ q, lookup (.idx i) o1.props = some q → q.c = true) ∧
+      (∃ w', LenProp o2 (l + 1) w') ∧
+      (∀ k, k ≠ .length → (∀ i, l < i → i < N + cnt → k ≠ .idx i) → lookup k o2.props = lookup k o1.props) := by
+  rw [← shrinkLoop_refines] at h
+  exact shrinkLoop_stops E N d nw t hc cnt o1 o2 hl h
+
+/-- `[]` -/
+def emptyArr : Obj := { isArr := true, ext := true, props := [(.length, ⟨.int 0, true, false, false⟩)], proto := [] }
+
+theorem wf_empty : WFArr emptyArr :=
+  ⟨rfl, 0, true, rfl, by decide, fun n _ h => by simp [emptyArr, lookup] at h⟩
+
+/-- non-vacuity: the invariant holds after a history that grows the array through a non-canonical numeral,
+    pins an element, shrinks length past it (stopping there), freezes length and pushes on -/
+example : WFArr (runHist E0
+    [.put (.name [48, 51]) .null false,                                  -- a["03"] = null
+     .define (.idx 1) ⟨some (.bool true), some true, some true, some false⟩ true,
+     .put .length (.int 0) false,                                         -- a.length = 0 stops at index 1
+     .define .length ⟨none, some false, none, none⟩ true,
+     .put (.idx 7) .undef true, .delete (.idx 1) false] emptyArr) :=
+  length_invariant E0 _ emptyArr wf_empty
+
+/-- …and that history really ends with length 2 and the pinned element present -/
+example : arrLength (runHist E0
+    [.put (.name [48, 51]) .null false,
+     .define (.idx 1) ⟨some (.bool true), some true, some true, some false⟩ true,
+     .put .length (.int 0) false] emptyArr) = 2 := by decide
 
 /-! ## Non-vacuity of the hypotheses -/
 
